@@ -20,7 +20,7 @@ ASSUMPTIONS = ["byte offsets of the preset layout as documented (anchored on 4 r
 
 def plan(tier):
     if tier == "quick":
-        return [("debug", 16, dict(nchar=100, ngs=30))]
+        return [("debug", 16, dict(nchar=100, ngs=30)), ("release", 2, dict(nchar=100, ngs=20))]
     return [("debug", 16, dict(nchar=6000, ngs=700)), ("release", 4, dict(nchar=1500, ngs=200))]
 
 
